@@ -178,7 +178,6 @@ func (s *server) start(req []byte, label string, wantGID bool) *pending {
 	gidCh := make(chan int, 1)
 	go runCall(s.prog, p, gidCh)
 	p.gid = <-gidCh
-	outstanding.Store(p.gid, struct{}{})
 	return p
 }
 
@@ -189,8 +188,11 @@ var outstanding sync.Map
 // runCall is a named function so that it is recognisable in goroutine
 // dumps.
 func runCall(prog nfsv4.Nfs4Program, p *pending, gidCh chan<- int) {
+	gid := 0
 	if gidCh != nil {
-		gidCh <- currentGID()
+		gid = currentGID()
+		outstanding.Store(gid, struct{}{})
+		gidCh <- gid
 	}
 	args := decodeArgs(p.req)
 	res, err := prog.NfsV4Nfsproc4Compound(context.Background(), args)
@@ -199,7 +201,7 @@ func runCall(prog nfsv4.Nfs4Program, p *pending, gidCh chan<- int) {
 		p.enc = encodeRes(res)
 	}
 	if gidCh != nil {
-		outstanding.Delete(p.gid)
+		outstanding.Delete(gid)
 	}
 	close(p.done)
 }
@@ -339,14 +341,12 @@ type hangVerdict struct {
 // "unclear" (inconclusive).
 func decideHang(p *pending, rounds int, interval time.Duration) hangVerdict {
 	var v hangVerdict
-	for i := 0; i < rounds; i++ {
+	agree := 0
+	for i := 0; i < rounds+20 && agree < rounds; i++ {
 		if p.wait(interval) {
 			return hangVerdict{kind: "returned"}
 		}
 		text, gs := takeDump()
-		var subject *gor
-		var others []string
-		subjectSite := ""
 		gid := p.gid
 		if gid == 0 {
 			// An ordinary call: the only runCall goroutine that is
@@ -366,30 +366,16 @@ func decideHang(p *pending, rounds int, interval time.Duration) hangVerdict {
 				n++
 			}
 			if n != 1 {
+				if p.finished() {
+					return hangVerdict{kind: "returned"}
+				}
 				return hangVerdict{kind: "unclear", reason: fmt.Sprintf("%d candidate goroutines for the call", n), dump: text}
 			}
 		}
+		var subject *gor
 		for j := range gs {
-			if gs[j].id == gid && gs[j].state == "chan receive" {
-				subjectSite = gs[j].topUserFrame()
-			}
-		}
-		for j := range gs {
-			g := &gs[j]
-			if g.id == gid {
-				subject = g
-				continue
-			}
-			if _, dead := condemned.Load(g.id); dead {
-				continue
-			}
-			if g.state == "chan receive" && subjectSite != "" && g.topUserFrame() == subjectSite {
-				// A fellow waiter at the same receive: it cannot
-				// release anybody before it is released itself.
-				continue
-			}
-			if g.hasRepoFrame() {
-				others = append(others, fmt.Sprintf("g%d[%s]@%s", g.id, g.state, g.topUserFrame()))
+			if gs[j].id == gid {
+				subject = &gs[j]
 			}
 		}
 		if p.finished() {
@@ -399,20 +385,53 @@ func decideHang(p *pending, rounds int, interval time.Duration) hangVerdict {
 			return hangVerdict{kind: "unclear", reason: "call goroutine not found in dump", dump: text}
 		}
 		site := subject.topUserFrame()
-		if !blockedState(subject.state) || !strings.Contains(site, repoMarker) {
-			return hangVerdict{kind: "unclear", reason: fmt.Sprintf("call goroutine is %q at %s", subject.state, site), dump: text}
+		if !blockedState(subject.state) {
+			// Running or runnable: it is making progress (or waiting
+			// for a CPU); look again later.
+			agree = 0
+			v = hangVerdict{kind: "unclear", reason: fmt.Sprintf("call goroutine is %q at %s", subject.state, site), dump: text}
+			continue
+		}
+		if !strings.Contains(site, repoMarker) {
+			return hangVerdict{kind: "unclear", reason: fmt.Sprintf("call goroutine is blocked (%s) outside /repo at %s", subject.state, site), dump: text}
+		}
+		var others []string
+		for j := range gs {
+			g := &gs[j]
+			if g.id == gid || !g.hasRepoFrame() {
+				continue
+			}
+			if _, dead := condemned.Load(g.id); dead {
+				continue
+			}
+			if g.state == "chan receive" && subject.state == "chan receive" && g.topUserFrame() == site {
+				// A fellow waiter at the same receive: it cannot
+				// release anybody before it is released itself.
+				continue
+			}
+			others = append(others, fmt.Sprintf("g%d[%s]@%s", g.id, g.state, g.topUserFrame()))
 		}
 		if len(others) > 0 {
-			return hangVerdict{kind: "unclear", reason: "other goroutines are inside /repo: " + strings.Join(others, " "), dump: text}
+			agree = 0
+			v = hangVerdict{kind: "unclear", reason: "other goroutines are inside /repo: " + strings.Join(others, " "), dump: text}
+			continue
 		}
-		if i > 0 && (v.site != site || v.state != subject.state) {
-			return hangVerdict{kind: "unclear", reason: "blocked site changed between dumps", dump: text}
+		if agree > 0 && (v.site != site || v.state != subject.state) {
+			agree = 0
 		}
+		agree++
 		v = hangVerdict{kind: "hang", site: site, state: subject.state, dump: subject.text, gid: gid}
 	}
-	if v.kind == "hang" && v.gid != 0 {
+	if v.kind == "hang" && agree >= rounds {
 		condemned.Store(v.gid, struct{}{})
 		outstanding.Delete(v.gid)
+		return v
+	}
+	if v.kind == "hang" {
+		v.kind, v.reason = "unclear", "blocked state not stable over successive dumps"
+	}
+	if v.kind == "" {
+		v = hangVerdict{kind: "unclear", reason: "no decisive dump"}
 	}
 	return v
 }
